@@ -853,6 +853,10 @@ fn replay_input(cx: &mut Ctx, rep: &mut Report, r: &mut Rng, v: &Value) {
                 }
             }
         }
+        "alnum" => {
+            let w = chars(v["word"].as_str().unwrap_or(""));
+            alnum_case(cx, rep, &w, "corpus");
+        }
         "listed" => {
             let w = chars(v["word"].as_str().unwrap_or(""));
             if cx.listed.contains_key(&s_of(&w)) {
@@ -1110,6 +1114,99 @@ fn observed_lingual(c: char) -> bool {
     t.len() == 1 && matches!(t[0].kind, TokenKind::Word(_))
 }
 
+/// simple_word of C06WordsProofs.v on the implementation's predicates: letters, or letters + one apostrophe + letters
+fn is_simple_rs(w: &[char]) -> bool {
+    if !w.is_empty() && w.iter().all(|c| observed_lingual(*c)) {
+        return true;
+    }
+    let idx: Vec<usize> = w.iter().enumerate().filter(|(_, c)| matches!(**c, '\'' | '\u{2019}')).map(|(i, _)| i).collect();
+    if idx.len() != 1 {
+        return false;
+    }
+    let (a, b) = (&w[..idx[0]], &w[idx[0] + 1..]);
+    !a.is_empty() && !b.is_empty() && a.iter().chain(b.iter()).all(|c| observed_lingual(*c))
+}
+/// word_body of C06AlnumProofs.v: a letter, then letters or ASCII digits
+fn is_body_rs(a: &[char]) -> bool {
+    !a.is_empty() && observed_lingual(a[0]) && a[1..].iter().all(|c| observed_lingual(*c) || c.is_ascii_digit())
+}
+/// alnum_word of C06AlnumProofs.v: a body, or body + apostrophe (the FIRST apostrophe character) + body
+fn is_alnum_rs(w: &[char]) -> bool {
+    if is_body_rs(w) {
+        return true;
+    }
+    match w.iter().position(|c| matches!(*c, '\'' | '\u{2019}')) {
+        Some(i) => is_body_rs(&w[..i]) && is_body_rs(&w[i + 1..]),
+        None => false,
+    }
+}
+/// the extended one-word characterisation (theorem C06_alnum_word_one_word) on the implementation: B = the model's
+/// classification is the harness's, O = the model's one-word verdict is the implementation's, and a word of the class
+/// must be exactly one Word token when written alone
+fn alnum_case(cx: &mut Ctx, rep: &mut Report, w: &[char], what: &str) -> bool {
+    rep.eval();
+    let al = is_alnum_rs(w);
+    rep.case(&format!("B {}", cps(w)), &format!("{}{}", is_simple_rs(w) as u8, al as u8));
+    cx.emit_one_word(rep, &s_of(w));
+    rep.count(&format!("alnum_stream:{}:{}", what, if al { "in the class" } else { "outside the class" }));
+    if al && !cx.is_single(&s_of(w)) {
+        rep.fail("alnum_word_not_one_token", format!("{:?} is a letter followed by letters / ASCII digits (+ one apostrophe + such a word) but is not exactly one Word token when written alone", s_of(w)), json!({"kind":"alnum","word":s_of(w)}));
+        return false;
+    }
+    true
+}
+/// letter, then letters / digits, biased towards the shapes lex_plural_digit looks at (`Xs..`, `X's..`)
+fn random_body(r: &mut Rng) -> Vec<char> {
+    let letter = |r: &mut Rng| -> char {
+        match r.below(12) {
+            0 => *r.pick(LATIN_EXTRA),
+            1 | 2 => (b'A' + r.below(26) as u8) as char,
+            3 => 's',
+            _ => (b'a' + r.below(26) as u8) as char,
+        }
+    };
+    let mut v = vec![letter(r)];
+    if r.chance(1, 4) {
+        v.push('s');
+    }
+    for _ in 0..r.below(7) {
+        let c = if r.chance(1, 3) { (b'0' + r.below(10) as u8) as char } else { letter(r) };
+        v.push(c);
+    }
+    v
+}
+fn random_alnum(r: &mut Rng) -> Vec<char> {
+    let mut v = random_body(r);
+    match r.below(10) {
+        0..=2 => {
+            v.push(if r.chance(1, 2) { '\'' } else { '\u{2019}' });
+            if r.chance(1, 3) { v.push('s') } else { v.extend(random_body(r)) }
+        }
+        3 => {
+            // near misses: outside the class (the model must classify them like the harness and cut them like the lexer)
+            match r.below(5) {
+                0 => v.insert(0, (b'0' + r.below(10) as u8) as char),
+                1 => { v.push('\''); v.extend(random_body(r)); v.push('\''); v.push('s') }
+                2 => { v.push('-'); v.extend(random_body(r)) }
+                3 => { v.push('.'); }
+                _ => { v.push('\''); v.push((b'0' + r.below(10) as u8) as char); v.push('s') }
+            }
+        }
+        _ => {}
+    }
+    v
+}
+fn fnv1a64(words: &[Vec<char>]) -> u64 {
+    let mut h: u64 = 0xCBF29CE484222325;
+    for w in words {
+        let s: String = w.iter().collect();
+        for b in s.bytes().chain(std::iter::once(b'\n')) {
+            h = (h ^ b as u64).wrapping_mul(0x100000001B3);
+        }
+    }
+    h
+}
+
 /// R lines (the model lexer runs on Rust's own tables) + the hypothesis `letter_laws` of the one-word
 /// characterisation (C06WordsProofs), over every scalar value
 fn lexer_unicode(rep: &mut Report) {
@@ -1151,6 +1248,16 @@ fn lexer_unicode(rep: &mut Report) {
             bad.push(("apostrophe_not_alphanumeric", cp));
         }
     }
+    // digit_law (premise of C06_alnum_word_one_word): an ASCII digit is_numeric
+    let mut digit_bad = 0u64;
+    for c in '0'..='9' {
+        if !c.is_numeric() || !c.is_alphanumeric() {
+            digit_bad += 1;
+            rep.fail("monitor_digit_law", format!("digit_law (C06AlnumProofs.v) fails at {c:?}: an ASCII digit that is not numeric"), json!({"kind":"text","text":c.to_string()}));
+        }
+    }
+    rep.monitor("digit_law:ascii_digits_checked", 10);
+    rep.monitor("digit_law:violations", digit_bad);
     rep.monitor("letter_laws:code_points_checked", 0x110000 - 0x800);
     rep.monitor("letter_laws:lingual_characters", n_ling);
     rep.monitor("letter_laws:violations", bad.len() as u64);
@@ -1203,6 +1310,38 @@ fn main() {
             rep.case(&format!("A {}", *c as u32), &fl);
         }
         rep.monitor("f24_table:alphabet_characters_checked", alpha.len() as u64);
+    }
+    {
+        // the dictionary the translator REBUILT from dictionary.dict + affixes.json is the implementation's (case D), and
+        // its non-simple part — Tables_f24.dict_nonsimple_entries, the domain of theorems C06_f24_table_from_dictionary /
+        // C06_dict_nonsimple_multi_iff — is exactly the non-simple part of words_iter (cases M + NC); both tiers, every run
+        rep.case("D", &format!("{} {:016x}", cx.words.len(), fnv1a64(&cx.words)));
+        let words = cx.words.clone();
+        let nonsimple: Vec<&Vec<char>> = words.iter().filter(|w| !is_simple_rs(w)).collect();
+        rep.case("NC", &nonsimple.len().to_string());
+        let alpha: BTreeSet<char> = nonsimple.iter().flat_map(|e| e.iter().copied()).chain('0'..='9').collect();
+        for c in &alpha {
+            let fl = format!("{}{}{}{}", c.is_whitespace() as u8, c.is_numeric() as u8, c.is_alphabetic() as u8, observed_lingual(*c) as u8);
+            rep.case(&format!("A {}", *c as u32), &fl);
+        }
+        let (mut n_alnum, mut alnum_bad) = (0u64, 0u64);
+        for w in &nonsimple {
+            rep.case(&format!("M {}", cps(w)), "1");
+            cx.emit_one_word(&mut rep, &s_of(w));
+            let al = is_alnum_rs(w);
+            rep.case(&format!("B {}", cps(w)), &format!("0{}", al as u8));
+            if al {
+                n_alnum += 1;
+                // theorem C06_alnum_word_one_word on the implementation
+                if !cx.is_single(&s_of(w)) {
+                    alnum_bad += 1;
+                    rep.fail("alnum_word_not_one_token", format!("dictionary entry {:?} is a letter followed by letters / ASCII digits (+ apostrophe + such a word) but is not exactly one Word token when written alone", s_of(w)), json!({"kind":"listed","word":s_of(w)}));
+                }
+            }
+        }
+        rep.monitor("dict_rebuilt:nonsimple_entries", nonsimple.len() as u64);
+        rep.monitor("dict_rebuilt:nonsimple_entries_that_are_alnum_words", n_alnum);
+        rep.monitor("alnum_word_one_token:violations_on_dictionary_entries", alnum_bad);
     }
     rep.extra.insert("dictionary_words".into(), json!(nwords));
     {
@@ -1464,6 +1603,14 @@ fn main() {
         do_placed(&mut cx, &mut rep, &mut r, &mk, &dl, [true; 4]);
     }
 
+    // ----- the extended word class (letters and ASCII digits after a first letter, + apostrophe part) -----
+    for i in 0..args.scale(1500, 40_000) {
+        if i % 64 == 0 && enough(&mut rep) {
+            break;
+        }
+        let w = random_alnum(&mut r);
+        alnum_case(&mut cx, &mut rep, &w, "generated");
+    }
     rep.extra.insert("seconds:unlisted".into(), json!((t_sec.elapsed().as_secs_f64() * 10.0).round() / 10.0));
     t_sec = std::time::Instant::now();
     // ----- LintGroup with only SpellCheck enabled = SpellCheck::lint -----
